@@ -40,7 +40,7 @@ DELIVER in {dir}/_benign/NN/ (NN = 01..08):
 If, while doing this, you find an input on which the ORIGINAL code misbehaves (crash, hang, non-deterministic result, wrong result against POSIX), describe it with a reproducer in {dir}/_benign/FOUND.md.
 Never commit. When finished leave the worktree CLEAN (no change applied; only _benign/ untracked). Keep your final answer short: one line per change.'''
 
-PLAIN = """Each change must be STRICTLY BEHAVIOUR-PRESERVING for every input, every schedule and every error path - the kind of everyday maintenance edit a maintainer makes without intending any functional difference - and realistic in size (10-80 changed lines; one or two of the eight may be larger). Use a different kind for each of the eight, for example: extract a helper / inline a helper; closure <-> method <-> function; switch <-> if chain; early returns instead of nesting (or the reverse); renaming locals, unexported functions, fields or types; splitting a file or moving declarations; replacing a hand-written loop by a standard-library call that is exactly equivalent (check the corner cases!) or the reverse; simplifying boolean conditions; introducing a named constant or a small unexported type; reordering independent statements or switch cases; modernising syntax (any for interface{}, min/max, range over int where the go.mod version allows it - check go.mod); comments and documentation together with a small code tidy-up.
+PLAIN = """Each change must be STRICTLY BEHAVIOUR-PRESERVING for every input, every schedule and every error path - the kind of everyday maintenance edit a maintainer makes without intending any functional difference - and realistic in size (10-80 changed lines; one or two of the eight may be larger). Use a different kind for each of the eight, for example: extract a helper / inline a helper; closure <-> method <-> function; switch <-> if chain; early returns instead of nesting (or the reverse); renaming locals, unexported functions, fields or types; splitting a file or moving declarations; replacing a hand-written loop by a standard-library call that is exactly equivalent (check the corner cases!) or the reverse; simplifying boolean conditions; introducing a named constant or a small unexported type; reordering independent statements or switch cases; modernising syntax (any for interface{{}}, min/max, range over int where the go.mod version allows it - check go.mod); comments and documentation together with a small code tidy-up.
 Do not add caches, pools or other state that survives a call, and do not change which goroutine does what."""
 
 def main():
